@@ -163,4 +163,38 @@ impl NewlineCache {
 pub uninterp spec fn spec_empty() -> Src;
 #[verifier::external_body] pub proof fn axiom_empty() ensures spec_empty().slen() == 0, spec_empty().is_boundary(0) { }
 pub proof fn arbitrary_empty() -> (r: Src) ensures r.slen() == 0, r.is_boundary(0) { axiom_empty(); spec_empty() }
+// FromIterator<&str>: the pieces in order (dialect rule 5: the iterator as a vector of pieces); `ts` are the texts after
+// 0, 1, 2, .. pieces
+//@ctx from_iter: the whole text fits in memory (its length is at most isize::MAX)
+fn from_iter(chunks: &Vec<Src>, Ghost(ts): Ghost<Seq<Src>>) -> (r: NewlineCache)
+    requires ts.len() == chunks@.len() + 1, ts[0].slen() == 0, ts.last().slen() <= isize::MAX,
+        forall|k: int| 0 <= k < chunks@.len() ==> #[trigger] concat(&ts[k], &chunks@[k], &ts[k + 1]) && chunks@[k].is_boundary(0),
+    ensures wf(&r) && describes(&r, &ts.last()), // OBL: C19.from_iter.table_describes_all_the_pieces_in_order
+{
+    //@probe
+    proof {
+        // the texts only grow, so none is longer than the last one
+        assert forall|k: int| 0 <= k <= chunks@.len() implies (#[trigger] ts[k]).slen() <= ts.last().slen() by { lemma_grow(ts, chunks@, k); }
+    }
+    //@body file=cfgrammar/src/lib/newlinecache.rs fn=from_iter
+    //@rule n=1 `^(\s*)for s in iter\.into_iter\(\) \{$` =>>
+    for k_ in 0..chunks.len()
+        invariant ts.len() == chunks@.len() + 1, ts.last().slen() <= isize::MAX, wf(&nlcache), describes(&nlcache, &ts[k_ as int]),
+            forall|k: int| 0 <= k < chunks@.len() ==> #[trigger] concat(&ts[k], &chunks@[k], &ts[k + 1]) && chunks@[k].is_boundary(0),
+            forall|k: int| 0 <= k <= chunks@.len() ==> (#[trigger] ts[k]).slen() <= ts.last().slen(),
+    {
+        //@probe
+        let s = &chunks[k_];
+        proof { assert(concat(&ts[k_ as int], &chunks@[k_ as int], &ts[k_ + 1])); }
+    //@end
+    //@rule n=1 `nlcache\.feed\(s\)` => `nlcache.feed(s, Ghost(&ts[k_ as int]), Ghost(&ts[k_ + 1]))`
+    //@endbody
+}
+pub proof fn lemma_grow(ts: Seq<Src>, cs: Seq<Src>, k: int)
+    requires ts.len() == cs.len() + 1, 0 <= k <= cs.len(), forall|j: int| 0 <= j < cs.len() ==> #[trigger] concat(&ts[j], &cs[j], &ts[j + 1]) && cs[j].is_boundary(0),
+    ensures ts[k].slen() <= ts.last().slen()
+    decreases cs.len() - k
+{
+    if k < cs.len() { assert(concat(&ts[k], &cs[k], &ts[k + 1])); lemma_grow(ts, cs, k + 1); }
+}
 //@use prelude/tail.rs
